@@ -23,14 +23,14 @@ AllActs ==
   \cup {A("IndexAssign", n, NoName, Undef, i, FALSE, TRUE) : n \in Names, i \in {1, 3}}
   \cup {A(nm, n, NoName, Undef, 0, FALSE, TRUE) : nm \in {"OpAssign", "FieldAssign", "TupleElemAssign", "Eval"}, n \in Names}
   \cup {A("OpAssignVar", n, m, Undef, i, FALSE, TRUE) : n \in Names, m \in Names, i \in 1..3}
-  \cup {A("Destructure", n, m, Undef, 0, FALSE, TRUE) : n \in Names, m \in Names}
+  \cup {A(nm, n, m, Undef, 0, FALSE, TRUE) : nm \in {"Destructure", "DestructureTooMany"}, n \in Names, m \in Names}
   \cup {[A("DestructureVar", n, m, Undef, 0, FALSE, TRUE) EXCEPT !.k = k] : n \in Names, m \in Names, k \in Names}
 
 Alphabet == {a \in AllActs : a.a \in ActKinds}
 
 (* statements that make no sense syntactically or would leave the bounded value pool *)
 Sensible(a) ==
-  /\ a.a \in {"DefineFromVar", "AssignFromVar", "Destructure", "DestructureVar"} => a.n # a.m
+  /\ a.a \in {"DefineFromVar", "AssignFromVar", "Destructure", "DestructureTooMany", "DestructureVar"} => a.n # a.m
   /\ a.a = "DestructureVar" => a.k \notin {a.n, a.m}
   /\ (a.a = "OpAssign" /\ Effect(store, mut, a).ok) => \A q \in 1..Len(store[a.n].d) : store[a.n].d[q] < MaxScalar
   /\ (a.a = "OpAssignVar" /\ Effect(store, mut, a).ok) =>
@@ -48,7 +48,7 @@ Next == \E a \in Alphabet : Sensible(a) /\ Do(a)
 Spec == Init /\ [][Next]_vars
 
 (* ----------------------------------------------------------- properties (C05) *)
-Target == {act'.n} \cup (IF act'.a \in {"Destructure", "DestructureVar"} THEN {act'.m} ELSE {})
+Target == {act'.n} \cup (IF act'.a \in {"Destructure", "DestructureTooMany", "DestructureVar"} THEN {act'.m} ELSE {})
 
 (* a defined immutable name keeps its value whatever statement follows *)
 ImmutableStable == [][\A n \in Names : (Defined(n) /\ n \notin mut) => store'[n] = store[n]]_vars
